@@ -221,6 +221,11 @@ func decode(c *mon.Ctx, e *ref.EBP) {
 	}
 }
 
+var (
+	prevBuilt ebp.EncoderBoundaryPoint
+	prevEnc   []byte
+)
+
 // built creates the object through the setter API and checks encode -> decode.
 func built(c *mon.Ctx, r *gen.Rand, e *ref.EBP) {
 	// the library's flag setters are set-only, every flag is set at most once
@@ -261,7 +266,13 @@ func built(c *mon.Ctx, r *gen.Rand, e *ref.EBP) {
 		b.SetPartitionFlag(e.Ext&0x80 != 0)
 		b.PartitionFlags = e.Partitions
 		if e.Flags&0x10 != 0 {
-			b.Grouping = append([]byte{}, e.Groups...)
+			if r.Bool() {
+				b.Grouping = append([]byte{}, e.Groups...)
+			} else {
+				for _, id := range e.Groups { // the ids are appended to the slice the created object came with
+					b.Grouping = append(b.Grouping, id)
+				}
+			}
 		}
 		if !timeFirst {
 			b.SetEBPTime(t)
@@ -274,7 +285,11 @@ func built(c *mon.Ctx, r *gen.Rand, e *ref.EBP) {
 		b.SetDiscontinuityFlag(e.Flags&0x04 != 0)
 		b.ExtensionFlags = e.Ext
 		if e.Flags&0x10 != 0 {
-			b.Grouping = append([]byte{}, e.Groups[:1]...)
+			if r.Bool() {
+				b.Grouping = append([]byte{}, e.Groups[:1]...)
+			} else {
+				b.Grouping = append(b.Grouping, e.Groups[0])
+			}
 		}
 		if !timeFirst {
 			b.SetEBPTime(t)
@@ -284,6 +299,14 @@ func built(c *mon.Ctx, r *gen.Rand, e *ref.EBP) {
 	}
 	c.Eval(1)
 	enc := x.Data()
+	// the EBP built before this one is still alive: building this one has not changed what it encodes to
+	if prevBuilt != nil {
+		c.Count("built.previous_object_rechecked")
+		if got := prevBuilt.Data(); !bytes.Equal(got, prevEnc) {
+			c.Fail("built:earlier-object-changed-by-building-another", fmt.Sprintf("an EBP built through the setter API encoded to %x; after another EBP was built the same object encodes to %x", prevEnc, got), wit{mon.Hex(prevEnc), shape(e), mon.Hex(got)})
+		}
+	}
+	prevBuilt, prevEnc = x, append([]byte{}, enc...)
 	if len(enc) < 2 || int(enc[1]) != len(enc)-2 {
 		c.Fail("built:length-byte", fmt.Sprintf("the length byte of the encoded EBP does not equal the number of bytes that follow (%x)", enc), wit{mon.Hex(enc), shape(e), ""})
 		return
